@@ -9,21 +9,23 @@ import (
 
 // Prog is one generated (or hand-written) program together with the calls to make.
 type Prog struct {
-	K       int
-	Kind    string // "dialect", "core", "corpus"
-	Plain   string // top-level declarations, plain names (P<k>_…)
-	Checked string // same derivation with overflow-detecting arithmetic (C<k>_…); "" = none
-	ResetP  string // body of the go-run reset function: re-assigns the globals' initial values in source order
-	ResetC  string
-	Init    string // body of the init() function ("" = none), plain names
-	InitC   string
-	Entries []*Entry
-	Key     string // corpus: stable key used when this program's oracle fails
-	Feat    map[string]int
-	Core    *CoreProg
-	Note    string
-	Imports string         // import block of the neo source (dialect programs import nothing)
-	NParams map[string]int // debug-info method id -> number of INITSLOT arguments the source implies
+	K          int
+	Kind       string // "dialect", "core", "corpus"
+	Plain      string // top-level declarations, plain names (P<k>_…)
+	Checked    string // same derivation with overflow-detecting arithmetic (C<k>_…); "" = none
+	ResetP     string // body of the go-run reset function: re-assigns the globals' initial values in source order
+	ResetC     string
+	Init       string // body of the init() function ("" = none), plain names
+	InitC      string
+	Entries    []*Entry
+	Key        string // corpus: stable key used when this program's oracle fails
+	Feat       map[string]int
+	Core       *CoreProg
+	CoreTokens string   // prefix-coded program for the Lean driver
+	CoreFuncs  []string // all functions of a core program, source order
+	Note       string
+	Imports    string         // import block of the neo source (dialect programs import nothing)
+	NParams    map[string]int // debug-info method id -> number of INITSLOT arguments the source implies
 }
 
 type Entry struct {
